@@ -25,8 +25,11 @@ def _mol_run(run, model, opts, nrel_quick, nrel_thorough, exhaustive=None, compl
 
     def one(am, nrel_here):
         signal.alarm(limit)
+        # the extracted model is quadratic-to-cubic in the number of atoms: beyond 300 atoms only the
+        # implementation-side falsifier runs (the correspondences are exercised on the smaller instances)
+        opts_here = opts if am.n() <= 300 else (opts - {"K4", "K5", "K6", "K7"})
         try:
-            facts = mol_checks.check_one(run, model, am, opts, nrel_here, rng, groups)
+            facts = mol_checks.check_one(run, model, am, opts_here, nrel_here, rng, groups)
         except CaseTimeout:
             # no result at all for a molecule of the property's domain: the property cannot hold on it
             run.falsifier_hits.append({"property": run.prop, "what": "implementation did not return within %d s (no result to compare)" % limit,
@@ -92,12 +95,34 @@ MOL_ASSUME = ["bliss contract: canonical_permutation returns a bijection (H1) an
               "the Gallina model computes what the Python computes: checked by the listed correspondence components on this run's inputs"]
 
 
+def long_instances(rng):
+    """a few instances far beyond the sizes of the random stream: > 100 refinement rounds, > 1000 atoms"""
+    n, e = gens.path(rng.randint(230, 270))
+    yield AM([6] * n, e, {0: 13}, {}, "long:chain")
+    n, e = gens.comb(rng.randint(120, 150))
+    yield AM([6] * n, e, {}, {n - 1: 2}, "long:comb")
+
+
+def big_instances(rng):
+    """more than 1000 atoms (multi-digit indices beyond 999, counts beyond 999)"""
+    n, e = gens.path(rng.randint(1002, 1030))
+    zs = [6] * n
+    zs[3] = 8
+    yield AM(zs, e, {5: 13, n - 2: 14}, {n // 2: 2}, "big:chain")
+    k = rng.randint(340, 350)
+    zs, edges = [], []
+    for c in range(k):      # k copies of H-O-H plus labels on a few
+        zs += [1, 8, 1]
+        edges += [(3 * c, 3 * c + 1), (3 * c + 1, 3 * c + 2)]
+    yield AM(zs, edges, {0: 2, 3 * (k - 1): 3}, {}, "big:waters")
+
+
 def c13(run, model):
-    _mol_run(run, model, {"K4", "C13"}, 4, 12, exhaustive=(3, 4))
+    _mol_run(run, model, {"K4", "C13"}, 4, 12, exhaustive=(3, 4), extra_stream=long_instances)
 
 
 def c04(run, model):
-    _mol_run(run, model, {"K4", "K5", "K6", "C04"}, 4, 12, exhaustive=(3, 4))
+    _mol_run(run, model, {"K4", "K5", "K6", "C04"}, 4, 12, exhaustive=(3, 4), extra_stream=long_instances)
 
 
 def c12(run, model):
@@ -112,12 +137,19 @@ def c02(run, model):
     _mol_run(run, model, {"K5", "K7", "C02"}, 0, 0, exhaustive=(4, 5), completeness=True, extra_stream=near_misses)
 
 
+def _near_and_big(rng):
+    for am in near_misses(rng):
+        yield am
+    for am in big_instances(rng):
+        yield am
+
+
 def c03(run, model):
-    _mol_run(run, model, {"K5", "K7", "C03"}, 0, 0, exhaustive=(4, 5), extra_stream=near_misses)
+    _mol_run(run, model, {"K5", "K7", "C03"}, 0, 0, exhaustive=(4, 5), extra_stream=_near_and_big)
 
 
 def c05(run, model):
-    _mol_run(run, model, {"K7", "C05"}, 0, 0, exhaustive=(4, 5), extra_stream=near_misses)
+    _mol_run(run, model, {"K7", "C05"}, 0, 0, exhaustive=(4, 5), extra_stream=_near_and_big)
 
 
 def label_variants(am, rng):
